@@ -16,7 +16,7 @@ func init() {
 			"in 40% of the cases nothing is asked of the source before the conversion (its expected observation comes from a twin built by the same calls); oracle: result carries the requested mapping; source observation unchanged; zero weight bitwise kept; |W'-W| <= 1e-10 W; no bin of weight <= 0 and Min/MaxIndex are the extreme positive bins; per side and for every target-bin boundary t the interval transport (Hall) condition: weight of result bins entirely below t lies between the weight of source bins ending at or below t and the weight of source bins starting below t (up to slivers); " +
 			"every quantile y satisfies y/(s*Value(i)) in [(1-a2)/(1+a1),(1+a2)/(1-a1)] for a source bin i whose cumulative interval is within 1 of q(W-1); identity conversion gives an equal, independent copy; exact statistics: count unchanged, min/max = fl(extreme*s), sum within the rounding bound. Non-trivial = bin-aligned factor, different kinds, or both signs; distinct = hash of (mappings, scale, items).",
 		Cases:     core.Scale(20000, 500000),
-		Mandatory: []string{"oracle.transport_checks", "oracle.quantile_checks", "oracle.source_unchanged", "oracle.nonpositive_bin_checks", "scale.bin_aligned", "scale.one", "identity.cases", "exact.rescale_checks", "pair.log->cub", "pair.cub->lin", "pair.lin->log", "target.collapsing", "source.reweighted_before_conversion", "source.unread_before_conversion"},
+		Mandatory: []string{"oracle.transport_checks", "oracle.quantile_checks", "oracle.batch_quantile_cases", "oracle.source_unchanged", "oracle.nonpositive_bin_checks", "scale.bin_aligned", "scale.one", "identity.cases", "exact.rescale_checks", "pair.log->cub", "pair.cub->lin", "pair.lin->log", "target.collapsing", "source.reweighted_before_conversion", "source.unread_before_conversion"},
 		Assumptions: []string{
 			"boundary classification tolerance 1e-9 relative, weight slivers 1e-9*W: a defect moving less than that is invisible",
 			"values within a factor gamma^2*4 of either mapping's range ends are not sent (the property says 'well inside')",
@@ -398,15 +398,45 @@ func runC17(c *core.Ctx) {
 	}
 	mn, _ := rk.GetMinValue()
 	mx, _ := rk.GetMaxValue()
-	for _, q := range qs {
-		y, err := rk.GetValueAtQuantile(q)
+	// half of the results are asked through the batch query (an entry point of its own), the others one by one
+	useBatch := r.Bool()
+	var batch, batchPlain []float64
+	if useBatch {
+		var berr, perr error
+		if c.Guard("GetValuesAtQuantiles", func() {
+			batch, berr = rk.GetValuesAtQuantiles(qs)
+			if exact {
+				batchPlain, perr = res.E.DDSketch.GetValuesAtQuantiles(qs)
+			}
+		}) {
+			return
+		}
+		if berr != nil || perr != nil || len(batch) != len(qs) || (exact && len(batchPlain) != len(qs)) {
+			c.Failf("quantile.error", "GetValuesAtQuantiles(%d valid q) on the result: %d answers, %v %v", len(qs), len(batch), berr, perr)
+			return
+		}
+		c.Count("oracle.batch_quantile_cases", 1)
+	}
+	for qi, q := range qs {
+		var y float64
+		var err error
+		if useBatch {
+			y = batch[qi]
+		} else {
+			y, err = rk.GetValueAtQuantile(q)
+		}
 		if err != nil {
 			c.Failf("quantile.error", "GetValueAtQuantile(%v) on the result: %v", q, err)
 			return
 		}
 		yr := y
 		if exact {
-			yp, _ := res.E.DDSketch.GetValueAtQuantile(q)
+			var yp float64
+			if useBatch {
+				yp = batchPlain[qi]
+			} else {
+				yp, _ = res.E.DDSketch.GetValueAtQuantile(q)
+			}
 			want := math.Max(mn, math.Min(mx, yp))
 			if y != want && dstSpec.Kind != gen.SSparse {
 				c.Failf("exact.clamp", "q=%v: exact result answered %v, expected clamp(%v,%v,%v)", q, y, yp, mn, mx)
